@@ -5,7 +5,7 @@
 (* (AsBuilt), so each parameter choice has exactly one reply sequence; the harness   *)
 (* performs the same raw /_svs/ exchange on a real server and must see that sequence.*)
 EXTENDS ValueStream, Json
-SpecGen == Init /\ [][(Core /\ UNCHANGED cancelled) /\ UNCHANGED params]_vars
+SpecGen == Init /\ [][(Core /\ UNCHANGED <<cancelled, cancelIdx>>) /\ UNCHANGED params]_vars
 Terminal == wantMore = 0 /\ hpc = "idle"
 Emit == Terminal => PrintT(<<"VEC", ToJson([n |-> N, chunk |-> Chunk, depth |-> Depth, fail |-> (IF NoFail THEN -1 ELSE FailAt),
                                              replies |-> [i \in 1..Len(replies) |-> <<replies[i][1], Len(replies[i][2]), replies[i][3]>>]])>>)
